@@ -328,6 +328,24 @@ int main(int argc, char **argv)
                 alarm(0);
                 g_in_run = 0;
                 accumulate(agg, o);
+                {
+                        // world shapes of this plan (reach of the rare generator knobs)
+                        uint64_t pumped = 0, empty_text = 0;
+                        for (auto &op : p.ops)
+                                if (op.kind == OP_PUMP)
+                                        pumped += (uint64_t)(op.c * std::min<int64_t>(op.d, p.qcap));
+                        for (auto &c : p.cmds)
+                                for (int k = 0; k < 4; k++)
+                                        for (auto &st : c.script[k])
+                                                empty_text += st.act == A_SETTEXT && st.text.empty();
+                        agg.add("W_buffer_over_64KiB", p.buf_size > 65536);
+                        agg.add("W_capacity_over_255", p.cmd_cap() > 255 && p.buf_size <= 65536);
+                        agg.add("W_table_255_or_more_commands", p.registered_count() >= 255);
+                        agg.add("W_pump_256_or_more_events", pumped >= 256 && pumped < 65536);
+                        agg.add("W_marathon_65536_or_more_events", pumped >= 65536);
+                        agg.add("W_empty_handler_text", empty_text > 0);
+                        agg.add("W_second_parser_instance", p.other);
+                }
                 bool nontrivial = (o.res.mon.lines_ok + o.res.mon.lines_error + o.res.mon.events_finished) > 0;
                 if (hf) {
                         uint64_t rec[3] = {idx, o.res.hash, (uint64_t)nontrivial};
